@@ -5,6 +5,7 @@ import re
 from ..fn import World
 from ..index import AnalysisError, dotted
 from ..astutil import text, short, endswith, calls_in, walk_no_nested
+from ._h_F import ifn, Res, res_of, canon, _At
 
 EXPLANATION = (
   "Decides (R1) that every TreeConverter.visit_X consumes every field of ast.X (except ctx / kind "
@@ -56,12 +57,15 @@ def r1_fields(run, w, tc):
       run.ob(R1, fi.qualname, "ast.%s" % cls_name, "visitor names an ast class", False, fi=fi)
       continue
     p = fi.params()[1]
-    used = {n.attr for n in ast.walk(fi.node) if isinstance(n, ast.Attribute) and
-            isinstance(n.value, ast.Name) and n.value.id == p}
-    delegates = any(isinstance(n, ast.Return) and isinstance(n.value, ast.Call) and
-                    (dotted(n.value.func) or "").startswith("self.visit_") and
-                    len(n.value.args) == 1 and text(n.value.args[0]) == p
-                    for n in ast.walk(fi.node)) and len(fi.node.body) <= 2
+    used = {n.attr for n in ast.walk(ifn(w, fi.qualname).node) if isinstance(n, ast.Attribute)
+            and isinstance(n.value, ast.Name) and n.value.id == p}
+    # pure delegation: whatever is returned is a sibling visitor's result for the same node
+    r = res_of(w, ifn(w, fi.qualname))
+    rets = r.returns()
+    delegates = bool(rets) and not r.falls_off_end() and not r.bare_returns() and all(
+      isinstance(leaf, ast.Call) and (dotted(leaf.func) or "").startswith("self.visit_") and
+      [text(a) for a in leaf.args] == [p] and not leaf.keywords
+      for (n, v) in rets for (f, leaf) in Res.cases(v))
     missing = [f for f in klass._fields if f not in used and f not in ALLOWED_UNUSED]
     run.ob(R1, fi.qualname, "fields of ast.%s: %s" % (cls_name, ", ".join(klass._fields)),
            "no field of an accepted node is ignored", delegates or not missing,
@@ -69,38 +73,49 @@ def r1_fields(run, w, tc):
            fi=fi)
 
 
+def _rejecting(r, n, v, p):
+  """Return node n (resolved value v) hands the node to generic_visit (which raises)."""
+  return all(isinstance(leaf, ast.Call) and dotted(leaf.func) == "self.generic_visit" and
+             [text(a) for a in leaf.args] == [p] for (f, leaf) in Res.cases(v))
+
+
+def _class_names(mod_unused, a):
+  elts = a.elts if isinstance(a, ast.Tuple) else [a]
+  return {(dotted(e) or "").split(".")[-1] for e in elts}
+
+
 def r2_reject(run, w, tc):
   R2 = run.rule("C40-R2", "nodes without a visitor, unsupported operators and chained "
                 "comparisons raise SyntaxError", floor=4)
   gv = tc.methods.get("generic_visit")
-  ok = gv is not None and len(gv.node.body) >= 1 and \
-      all(isinstance(s, (ast.Raise, ast.Expr)) for s in gv.node.body) and \
-      any(isinstance(s, ast.Raise) and isinstance(s.exc, ast.Call) and
-          dotted(s.exc.func) == "SyntaxError" for s in gv.node.body)
+  ok = gv is not None
+  if ok:
+    g = ifn(w, gv.qualname)
+    cfg = g.cfg
+    raises = [n for n in cfg.nodes if n.kind == "raise_stmt"]
+    gr = res_of(w, g)
+    ok = cfg.exit.id not in cfg.reach({cfg.entry.id}) and bool(raises) and all(
+      n.stmt.exc is not None and isinstance(gr.expand(n.stmt.exc, n.id), ast.Call) and
+      dotted(gr.expand(n.stmt.exc, n.id).func) == "SyntaxError" for n in raises)
   run.ob(R2, tc.qualname + ".generic_visit", "raise SyntaxError(...)",
          "every ast node class without a visitor is rejected", ok, fi=gv)
   for name, want in (("visit_BinOp", {"Add", "Sub", "Mult", "Div", "Mod"}),
                      ("visit_UnaryOp", {"Not"})):
     fi = tc.methods[name]
-    fn = w.fn_of(fi)
-    cfg = fn.cfg
+    fn = ifn(w, fi.qualname)
+    r = res_of(w, fn)
     p = fi.params()[1]
-    tests = [n for n in cfg.nodes if n.kind == "if" and isinstance(n.stmt.test, ast.UnaryOp) and
-             isinstance(n.stmt.test.op, ast.Not) and isinstance(n.stmt.test.operand, ast.Call) and
-             dotted(n.stmt.test.operand.func) == "isinstance" and
-             text(n.stmt.test.operand.args[0]) == p + ".op"]
-    ok = False
     admitted = set()
-    if len(tests) == 1:
-      t = tests[0].stmt
-      a = t.test.operand.args[1]
-      elts = a.elts if isinstance(a, ast.Tuple) else [a]
-      admitted = {(dotted(e) or "").split(".")[-1] for e in elts}
-      rejects = all(isinstance(s, ast.Return) and isinstance(s.value, ast.Call) and
-                    dotted(s.value.func) == "self.generic_visit" for s in t.body) and t.body
-      emits = [n for n in cfg.nodes if n.kind == "return" and isinstance(n.stmt.value, ast.List)]
-      ok = bool(rejects) and bool(emits) and all(cfg.dominated_by(e.id, {tests[0].id})
-                                                 for e in emits)
+    def op_test(a, node):
+      if isinstance(a, ast.Call) and dotted(a.func) == "isinstance" and len(a.args) == 2 and \
+          r.norm(a.args[0], node.id) == p + ".op":
+        admitted.update(_class_names(None, a.args[1]))
+        return True
+      return False
+    rets = r.returns()
+    emits = [(n, v) for (n, v) in rets if not _rejecting(r, n, v, p)]
+    ok = bool(emits) and not r.falls_off_end() and not r.bare_returns() and \
+        all(r.known(n.id, op_test, True) for (n, v) in emits)
     run.ob(R2, fi.qualname, "if not isinstance(node.op, (...)): return self.generic_visit(node)",
            "operators outside the supported set are rejected before a tree node is built", ok,
            fi=fi)
@@ -108,14 +123,15 @@ def r2_reject(run, w, tc):
            "the admitted operator set is the documented one", admitted == want, fi=fi,
            nontrivial=False)
   fi = tc.methods["visit_Compare"]
-  fn = w.fn_of(fi)
-  cfg = fn.cfg
+  fn = ifn(w, fi.qualname)
+  r = res_of(w, fn)
   p = fi.params()[1]
-  guards = [n for n in cfg.nodes if n.kind == "if" and
-            any(isinstance(s, ast.Raise) for s in n.stmt.body) and
-            "len(%s.ops) != 1" % p in text(n.stmt.test)]
-  emits = [n for n in cfg.nodes if n.kind == "return"]
-  ok = len(guards) == 1 and all(cfg.dominated_by(e.id, {guards[0].id}) for e in emits)
+  def one_op(a, node):
+    return isinstance(a, ast.Compare) and isinstance(a.ops[0], ast.Eq) and \
+        {r.norm(a.left, node.id), r.norm(a.comparators[0], node.id)} == {"len(%s.ops)" % p, "1"}
+  rets = r.returns()
+  ok = bool(rets) and not r.falls_off_end() and all(r.known(n.id, one_op, True)
+                                                    for (n, v) in rets)
   run.ob(R2, fi.qualname, "if len(node.ops) != 1 ...: raise SyntaxError", "chained comparisons "
          "are rejected rather than truncated to their first operator", ok, fi=fi)
 
@@ -174,12 +190,15 @@ def r3_tags(run, w, tc):
   emitted |= {c.__name__ for c in ast.cmpop.__subclasses__()}   # ast.cmpop: emitted unfiltered
   for name in ("visit_BinOp", "visit_UnaryOp"):
     fi = tc.methods[name]
-    for n in ast.walk(fi.node):
-      if isinstance(n, ast.Call) and dotted(n.func) == "isinstance" and \
-          text(n.args[0]).endswith(".op"):
-        a = n.args[1]
-        for e in (a.elts if isinstance(a, ast.Tuple) else [a]):
-          emitted.add((dotted(e) or "").split(".")[-1])
+    r = res_of(w, ifn(w, fi.qualname))
+    for cn in r.cfg.nodes:
+      for root in cn.exprs:
+        for n in walk_no_nested(root):
+          if isinstance(n, ast.Call) and dotted(n.func) == "isinstance" and len(n.args) == 2 and \
+              r.norm(n.args[0], cn.id) == fi.params()[1] + ".op":
+            a = r.expand(n.args[1], cn.id)
+            for e in (a.elts if isinstance(a, ast.Tuple) else [a]):
+              emitted.add((dotted(e) or "").split(".")[-1])
   labels = _ts_case_labels(os.path.join(w.repo.root, "app", "common", "PredicateFormula.ts"),
                            "compilePredicateFormula")
   if len(labels) < 15:
@@ -192,13 +211,19 @@ def r3_tags(run, w, tc):
            ("only emitted by Python" if t in emitted else "only handled by Node"),
            nontrivial=False)
   # BoolOp / Compare really emit the class name of the operator
-  for name, expr in (("visit_BoolOp", "node.op.__class__.__name__"),
-                     ("visit_Compare", "node.ops[0].__class__.__name__")):
+  for name, expr in (("visit_BoolOp", "%s.op.__class__.__name__"),
+                     ("visit_Compare", "%s.ops[0].__class__.__name__")):
     fi = tc.methods[name]
-    ok = any(isinstance(n, ast.List) and n.elts and text(n.elts[0]) == expr
-             for n in ast.walk(fi.node))
-    run.ob(R3, fi.qualname, "[%s, ...]" % expr, "the tag is the operator's ast class name", ok,
-           fi=fi)
+    r = res_of(w, ifn(w, fi.qualname))
+    want = expr % fi.params()[1]
+    def head(v):
+      while isinstance(v, ast.BinOp) and isinstance(v.op, ast.Add):
+        v = v.left
+      return text(v.elts[0]) if isinstance(v, ast.List) and v.elts else None
+    rets = r.returns()
+    ok = bool(rets) and all(head(leaf) == want for (n, v) in rets for (f, leaf) in Res.cases(v))
+    run.ob(R3, fi.qualname, "[%s, ...]" % (expr % "node"), "the tag is the operator's ast class "
+           "name", ok, fi=fi)
 
 
 def r4_leaves(run, w, tc):
@@ -206,11 +231,12 @@ def r4_leaves(run, w, tc):
   for cls_name, fi in sorted(_visitors(tc).items()):
     if cls_name in LEGACY:
       continue
-    fn = w.fn_of(fi)
+    fn = ifn(w, fi.qualname)
     cfg = fn.cfg
+    r = res_of(w, fn)
     p = fi.params()[1]
     for rn in [n for n in cfg.nodes if n.kind == "return" and n.stmt.value is not None]:
-      for leaf in _leaves(rn.stmt.value, fi.node):
+      for (leaf, at) in _leaves(rn.stmt.value, r, rn.id):
         t = text(leaf)
         if isinstance(leaf, ast.Constant):
           ok, why = isinstance(leaf.value, (str, int, float, bool, type(None))), "literal"
@@ -225,16 +251,18 @@ def r4_leaves(run, w, tc):
                                                 for v in nc.values)
           why = "value of the named_constants literal table"
         elif t == p + ".value" and cls_name == "Constant":
-          ok = _guarded(cfg, rn, lambda s: _rejects_non_json(s, p))
+          ok = r.known(at, lambda a, nd: _json_only(r, a, nd, p), True, within=leaf) or \
+              r.known(rn.id, lambda a, nd: _json_only(r, a, nd, p), True)
           why = "Constant.value may be bytes/complex/Ellipsis: needs a rejecting isinstance guard"
         elif t.endswith(".arg"):
-          ok = _guarded(cfg, rn, lambda s: _rejects_none_arg(s, p))
+          ok = r.known(at, lambda a, nd: _any_none_arg(r, a, nd, p), False, within=leaf) or \
+              r.known(rn.id, lambda a, nd: _any_none_arg(r, a, nd, p), False)
           why = "keyword.arg is None for **kwargs: needs a rejecting guard"
         else:
           ok, why = False, "leaf of unknown type"
         run.ob(R4, fi.qualname, "leaf %s" % short(leaf, 50), "leaf is JSON-safe (%s)" % why, ok,
                fi=fi, node=leaf)
-  ppf = w.fn("predicate_formula.parse_predicate_formula")
+  ppf = ifn(w, "predicate_formula.parse_predicate_formula")
   ok = any(isinstance(n, ast.List) and n.elts and text(n.elts[0]) == "'Comment'" and
            text(n.elts[2]).endswith(".strip()") for n in ast.walk(ppf.node))
   run.ob(R4, ppf.qualname, "['Comment', result, part[1][1:].strip()]", "comment text is a str",
@@ -248,66 +276,71 @@ def r4_leaves(run, w, tc):
          "unsupported input is reported as SyntaxError", ok, fi=ppf.fi)
 
 
-def _leaves(e, fnode=None, seen=None):
-  """Leaf expressions of a returned tree expression (not recursive self.visit results)."""
+def _leaves(e, r, nid, seen=None, depth=0):
+  """[(leaf expression, id of the CFG node where it is evaluated)] of a returned tree expression
+  (not the recursive self.visit results). Locals are followed through the definitions that reach
+  the node; lists built by append/extend through their elements."""
   seen = seen if seen is not None else set()
-  if isinstance(e, ast.List):
+  if isinstance(e, _At):
+    return _leaves(e.expr, r, e.nid, seen, depth)
+  if isinstance(e, (ast.List, ast.Tuple)):
     out = []
     for x in e.elts:
-      out += _leaves(x, fnode, seen)
+      out += _leaves(x, r, nid, seen, depth)
     return out
   if isinstance(e, ast.BinOp) and isinstance(e.op, ast.Add):
-    return _leaves(e.left, fnode, seen) + _leaves(e.right, fnode, seen)
+    return _leaves(e.left, r, nid, seen, depth) + _leaves(e.right, r, nid, seen, depth)
+  if isinstance(e, ast.IfExp):
+    return _leaves(e.body, r, nid, seen, depth) + _leaves(e.orelse, r, nid, seen, depth)
   if isinstance(e, ast.ListComp):
-    return _leaves(e.elt, fnode, seen)
-  if isinstance(e, ast.Name) and fnode is not None and e.id not in seen:
-    # a local list built above: its initial value and everything appended to it
-    seen.add(e.id)
-    out = []
-    for n in ast.walk(fnode):
-      if isinstance(n, ast.Assign) and any(isinstance(t, ast.Name) and t.id == e.id
-                                           for t in n.targets):
-        out += _leaves(n.value, fnode, seen)
-      if isinstance(n, ast.Call) and isinstance(n.func, ast.Attribute) and \
-          n.func.attr in ("append", "extend", "insert") and \
-          isinstance(n.func.value, ast.Name) and n.func.value.id == e.id:
-        for a in n.args:
-          out += _leaves(a, fnode, seen)
-    return out
+    return _leaves(e.elt, r, nid, seen, depth)
   if isinstance(e, ast.Call):
     d = dotted(e.func) or ""
     if d.startswith("self.visit") or d == "self.generic_visit":
       return []
   if isinstance(e, ast.Name):
-    return []       # a local list built above (args): its parts are returned lists themselves
-  return [e]
+    if depth > 6 or (e.id, nid) in seen:
+      return []
+    seen.add((e.id, nid))
+    b = r.binding(nid, e.id)
+    if b is not None:
+      return _leaves(b[0], r, b[1], seen, depth + 1)
+    els = r.elements(e, nid)
+    if els is None:
+      return [(e, nid)]     # not a list built here: a leaf of unknown type
+    out = []
+    for el in els:
+      at = el.node.id if el.node is not None else nid
+      if el.key is not None:
+        out += _leaves(el.key, r, at, seen, depth + 1)
+      out += _leaves(el.elt, r, at, seen, depth + 1)
+    return out
+  return [(e, nid)]
 
 
-def _guarded(cfg, ret_node, is_guard):
-  guards = {n.id for n in cfg.nodes if n.kind == "if" and is_guard(n.stmt)}
-  return bool(guards) and cfg.dominated_by(ret_node.id, guards)
+def _json_only(r, a, node, p):
+  """atom: isinstance(<node>.value, (str, int, float, bool, type(None))) -- JSON types only"""
+  if not (isinstance(a, ast.Call) and dotted(a.func) == "isinstance" and len(a.args) == 2 and
+          r.norm(a.args[0], node.id) == p + ".value"):
+    return False
+  t = r.expand(a.args[1], node.id)
+  names = {text(e) for e in (t.elts if isinstance(t, ast.Tuple) else [t])}
+  return names <= JSON_TYPES
 
 
-def _body_rejects(stmt):
-  return bool(stmt.body) and all(
-    (isinstance(s, ast.Return) and isinstance(s.value, ast.Call) and
-     dotted(s.value.func) == "self.generic_visit") or isinstance(s, ast.Raise)
-    for s in stmt.body)
-
-
-def _rejects_non_json(stmt, p):
-  t = stmt.test
-  if isinstance(t, ast.UnaryOp) and isinstance(t.op, ast.Not) and isinstance(t.operand, ast.Call) \
-      and dotted(t.operand.func) == "isinstance" and text(t.operand.args[0]) == p + ".value":
-    a = t.operand.args[1]
-    names = {text(e) for e in (a.elts if isinstance(a, ast.Tuple) else [a])}
-    return names <= JSON_TYPES and _body_rejects(stmt)
-  return False
-
-
-def _rejects_none_arg(stmt, p):
-  t = text(stmt.test)
-  return (".arg is None" in t and (p + ".keywords") in t) and _body_rejects(stmt)
+def _any_none_arg(r, a, node, p):
+  """atom: any(<k>.arg is None for <k> in <node>.keywords)"""
+  if not (isinstance(a, ast.Call) and dotted(a.func) == "any" and len(a.args) == 1 and
+          isinstance(a.args[0], (ast.GeneratorExp, ast.ListComp))):
+    return False
+  g = a.args[0]
+  if len(g.generators) != 1 or g.generators[0].ifs or \
+      r.norm(g.generators[0].iter, node.id) != p + ".keywords":
+    return False
+  e, pol = canon(g.elt)
+  return pol and isinstance(e, ast.Compare) and isinstance(e.ops[0], ast.Is) and \
+      isinstance(e.comparators[0], ast.Constant) and e.comparators[0].value is None and \
+      text(e.left) == text(g.generators[0].target) + ".arg"
 
 
 P = "sandbox/grist/predicate_formula.py"
